@@ -743,8 +743,15 @@ class Frame(object):
         if bounding_f_range is None:
             bounding_min, bounding_max = 0, self.fchans
         else:
-            bounding_min = max(self.get_index(bounding_f_range[0]), 0)
-            bounding_max = min(self.get_index(bounding_f_range[1]), self.fchans)
+            # Clip both bounds to the frame, so that a range partly or wholly
+            # outside the band only selects the overlapping channels, if any
+            bounding_min = min(max(self.get_index(bounding_f_range[0]), 0), 
+                               self.fchans)
+            bounding_max = min(max(self.get_index(bounding_f_range[1]), bounding_min), 
+                               self.fchans)
+        if bounding_max <= bounding_min:
+            # No channel of the frame lies in the requested range
+            return np.zeros(self.shape)
             
         restricted_fs = self.fs[bounding_min:bounding_max]
         if integrate_f_profile:
